@@ -194,6 +194,8 @@ def enum_a_job(job):
     for e in ERRS:
         single += [["senderr", e], ["recverr", 3, e], ["combo", [["answer", 1], ["recverr", 5, e]]],
                    ["combo", [["answer", 1], ["recverr", 40, e]]]]
+    single += [["combo", [["answer", 1], ["exc", 5, 6]]], ["combo", [["exc", 1, 6], ["exc", 2, 6]]], ["combo", [["answer", 1], ["answer", 3]]],
+               ["combo", [["answer", 1], ["garbage", 4]]], ["combo", [["exc", 1, 2], ["answer", 3]]]]
     single += [["drop"], ["garbage", 2], ["short", 2], ["bad", 2], ["exc", 2, 2], ["exc", 2, 6], ["lone", 9, 2], ["dup", 1, 2],
                ["eof", 2], ["reset", 2, "ECONNRESET"], ["answer", 20]]
     for api in api_names(family):
@@ -290,6 +292,8 @@ def run_history(acc: Acc, case):
                 peer.set_script([("answer", 0.0)], default=("answer", 0.0))
             elif ch == "F":
                 peer.set_script([], default=("drop",))
+            elif ch == "E":  # failed by a transport error instead of silence
+                peer.set_script([("senderr", "ECONNREFUSED" if family != "ET" or port != 502 else "EPIPE")], default=("drop",))
             else:
                 peer.set_script([("exc", 0.0, 6)], default=("exc", 0.0, 6))
             try:
@@ -319,7 +323,7 @@ def run_history(acc: Acc, case):
             if kind != "RequestRejectedException":
                 fails.append(("C09|B|rejected-step|%s" % kind, "step %d of %s gave %s" % (i, hist, kind), case))
                 break
-        else:
+        else:  # "F" and "E"
             count += 1
             if kind != "RequestFailedException":
                 fails.append(("C09|B|failed-step|%s" % kind, "step %d of %s gave %s" % (i, hist, kind), case))
@@ -335,10 +339,10 @@ def run_history(acc: Acc, case):
 
 
 def hist_job(job):
-    family, port, keep, first, maxlen = job
+    family, port, keep, first, maxlen, alphabet = job
     acc = Acc()
     for n in range(0, maxlen):
-        for rest in itertools.product("SFR", repeat=n):
+        for rest in itertools.product(alphabet, repeat=n):
             case = {"family": family, "port": port, "keep": keep, "hist": first + "".join(rest)}
             _apply(acc, case, run_history)
     acc.sample({"family": family, "port": port, "keep": keep, "hist": first + "FSFRFFSF"[:maxlen - 1]})
@@ -444,9 +448,13 @@ def run(ctx):
         for keep in (False, True) if not ctx.quick else (True,):
             for first in "SFR":
                 for second in "SFR":
-                    hjobs.append((family, port, keep, first + second, maxlen - 1))
+                    hjobs.append((family, port, keep, first + second, maxlen - 1, "SFR"))
+            for first in "SFRE":   # with transport-error failures as fourth outcome, shorter histories
+                for second in "SFRE":
+                    hjobs.append((family, port, keep, first + second, ctx.pick(4, 6), "SFRE"))
     ctx.shard(hist_job, hjobs, "B: all histories over {S,F,R} of length 2..8 (lengths 0..1 trivial)")
-    ctx.exhaustive_parts.append("B: all 3^2..3^8 histories over {success, failed, rejected} per listed (family, port, keep-alive)")
+    ctx.exhaustive_parts.append("B: all 3^2..3^8 histories over {success, failed, rejected} and all histories up to length %d over {success, "
+                                "failed by silence, rejected, failed by transport error} per listed (family, port, keep-alive)" % ctx.pick(5, 7))
     m = ctx.pick(1200, 25000)
     ijobs = []
     for t in ("discover", "ES", "ET", "DT"):
